@@ -109,20 +109,20 @@ type Finding struct {
 
 // Stats is what one shard reports to the runner.
 type Stats struct {
-	Prop        string         `json:"prop"`
-	Shard       int            `json:"shard"`
-	Seed        uint64         `json:"seed"`
-	Evaluations int            `json:"evaluations"`
-	Nontrivial  []uint64       `json:"nontrivial"`
-	Classes     map[string]int `json:"classes"`
-	Samples     []any          `json:"samples"`
-	Findings    []Finding      `json:"findings"`
-	KnownHits   map[string]int `json:"known_hits"`
-	Excluded    int            `json:"excluded_by_construction"`
-	Inconclusive int           `json:"inconclusive"`
-	Exhaustive  bool           `json:"exhaustive,omitempty"`
-	Bulk        int            `json:"bulk_nontrivial"` // distinct non-trivial cases counted in bulk (distinct by construction)
-	Extra       map[string]any `json:"extra,omitempty"`
+	Prop         string         `json:"prop"`
+	Shard        int            `json:"shard"`
+	Seed         uint64         `json:"seed"`
+	Evaluations  int            `json:"evaluations"`
+	Nontrivial   []uint64       `json:"nontrivial"`
+	Classes      map[string]int `json:"classes"`
+	Samples      []any          `json:"samples"`
+	Findings     []Finding      `json:"findings"`
+	KnownHits    map[string]int `json:"known_hits"`
+	Excluded     int            `json:"excluded_by_construction"`
+	Inconclusive int            `json:"inconclusive"`
+	Exhaustive   bool           `json:"exhaustive,omitempty"`
+	Bulk         int            `json:"bulk_nontrivial"` // distinct non-trivial cases counted in bulk (distinct by construction)
+	Extra        map[string]any `json:"extra,omitempty"`
 
 	ntSet map[uint64]struct{}
 	mu    sync.Mutex
